@@ -17,6 +17,7 @@ EXPLANATION = (
     "comparators; plus the push-on-open / pop-on-close discipline of both builders and the agreement of the endpoint encodings. With these, sorted() yields a "
     "well-formed bracket sequence of the nesting, so the scan assigns the innermost enclosing parent (paper argument in DESIGN.md). The cyclic triple class "
     "(zero-duration endpoint, positive CLOSE, positive OPEN) is a recorded known finding."
+    " Later additions: no size-dependent early exit in front of the scan, published parent column (device rows only, by stream), threads split by (pid, tid)."
 )
 NEW = "hta.common.trace_call_stack"
 OLD = "hta.common.call_stack"
